@@ -20,6 +20,11 @@ func (e *Eng) allocCheck(n *Term, pos token.Pos) {
 		return
 	}
 	if !e.Decide(ok) {
+		// prefer a witness that is unmistakable in the native replay (hundreds of megabytes)
+		big := e.tb.And(e.tb.Ule(e.tb.I64(1<<28), n), e.tb.Ule(n, e.tb.I64(1<<32)))
+		if r, _ := e.solver.Check([]*Term{big}, nil); r == Sat {
+			e.assertPC(big)
+		}
 		panic(pathEnd{kind: endStop, msg: "allocation above bound", site: "alloc:" + e.funcAt(pos)})
 	}
 }
